@@ -13,18 +13,40 @@
         CDSect, CharData, Comment exactly; PI, Reference, AttValue exactly outside finding D04
         (the parser's `name` production), with the refuting witnesses;
     (2) the inputs of every repaired defect are rejected by the model and ill-formed per spec;
-    (3) the two levels of the specification nest ([wf_is_wf_xml10]).
+    (3) the two levels of the specification nest ([wf_is_wf_xml10]);
+    (4) round 2 -- the conditional theorem FOR EVERY DOCUMENT WITHOUT A DOCUMENT TYPE DECLARATION,
+        all three rungs, any size and nesting depth:
+          accepted_is_wellformed_nodoctype_partial :
+            forall s d, from_raw s = OOk ([], d) -> nodoctype s = true ->
+              KnownD04_nodoctype s = false -> KnownNS s = false -> wf s = true
+        with its XML 1.0 half [accepted_is_wf_xml10_nodoctype_partial] (no namespace hypothesis), the
+        variant whose hypothesis is on the text ([..._text_partial]: the nine characters of the
+        DOCTYPE keyword do not occur in s) and the variant on the infoset ([doc_doctype d = None]).
+        It is composed of
+          rung 2, syntax ([syntax_nodoctype_partial]): when the production `document` of G_xml
+            derives the whole string (through the big-step success relation of Proofs/PegInv.v, by
+            inversion of every production involved and induction on the length of the input),
+            [Spec.XmlWF.parse_document] accepts it and returns the translation [x_doc_nodt] of the
+            typed document of Model/ParseActions.v: XML declaration, Misc, element, attributes,
+            content with nested elements, references, CDATA sections, comments, PIs, character data;
+          rung 3, constraints ([constraints_nodoctype_partial]): the checks of Model/Info.v
+            [build_document] (unique attribute names, legal characters, entity lookup) and nom's
+            `verify` in `element` imply [Spec.XmlWF.check_doc]: Element Type Match, Unique Att Spec,
+            No < in Attribute Values, Legal Character, Entity Declared.
+        Exclusions, all decidable: [KnownD04_nodoctype s] -- some PI target or entity-reference name
+        the parser read with its production `name` is not a [5] Name (finding D04); [KnownNS s] --
+        s is well-formed XML 1.0 and violates a namespace constraint (the classifiers of findings
+        WFNS20-23 are exactly this).  WF13 cannot occur without a DOCTYPE.
 
     Missing for the full conditional theorem
-      forall s d, Known_C02 s = false -> from_raw s = OOk ([], d) -> wf s = true
-    (named [accepted_is_wellformed_partial] in notes/wf_STATUS.md): rungs 2 and 3 of the ladder
-    (element / content / tags against the PEG tree and Model/ParseActions.v; prolog, XML
-    declaration and the DTD productions), and the well-formedness constraints against
-    Model/Info.v [build_document].  Those are covered by the failing-input search of checks/C02.py
+      forall s d, Known_C02 s = false -> from_raw s = OOk ([], d) -> wf s = true :
+    the DOCTYPE rung (internal subset declarations, the entity-related constraints with WF13
+    excluded).  Documents with a DOCTYPE are covered by the failing-input search of checks/C02.py
     (specification vs implementation, with expat as independent oracle of the specification). *)
 From Coq Require Import List NArith Bool.
-From XmlRs Require Import Base.CPred Spec.XmlChars Spec.XmlWF Model.Peg Gen.GrammarXmlGen Model.Info
-  Proofs.NameLanguage Proofs.XmlWFLexical Proofs.XmlWFModel.
+From XmlRs Require Import Base.CPred Spec.XmlChars Spec.XmlWF Model.Peg Gen.GrammarXmlGen Model.ParseActions Model.Info
+  Proofs.NameLanguage Proofs.XmlWFLexical Proofs.XmlWFModel Proofs.ParseInvElem
+  Proofs.XmlWFSyntaxLex Proofs.XmlWFSyntaxElem Proofs.XmlWFSyntaxDoc Proofs.XmlWFSyntaxCheck.
 Import ListNotations.
 
 (** ** (3) *)
@@ -89,7 +111,48 @@ Theorem repaired_defects_are_rejected : forall x,
   accepted x = false /\ wf_xml10 x = false.
 Proof. exact repaired_defects_rejected. Qed.
 
+(** ** (4) documents without a document type declaration: rungs 2 and 3, and the conditional theorem *)
+Theorem syntax_nodoctype_partial : forall (s : str) (pd : pdoc),
+  ParseActions.parse_document s = POk (pd, []) -> pr_declaration_doc (d_prolog pd) = None -> d04_doc_nodt pd = true ->
+  Spec.XmlWF.parse_document s = Some (x_doc_nodt pd).
+Proof. exact parse_document_syntax_nodoctype. Qed.
+
+Theorem constraints_nodoctype_partial : forall (pd : pdoc) (d : document),
+  p_element_ok (d_element pd) -> pr_declaration_doc (d_prolog pd) = None -> build_document pd = IOk d ->
+  exists root, check_doc (x_doc_nodt pd) = inr root.
+Proof. exact check_doc_nodoctype. Qed.
+
+Theorem accepted_is_wf_xml10_nodoctype_partial : forall (s : str) (d : document),
+  from_raw s = OOk ([], d) -> nodoctype s = true -> KnownD04_nodoctype s = false -> wf_xml10 s = true.
+Proof. exact accepted_wf10_nodoctype. Qed.
+
+Theorem accepted_is_wellformed_nodoctype_partial : forall (s : str) (d : document),
+  from_raw s = OOk ([], d) -> nodoctype s = true -> KnownD04_nodoctype s = false -> KnownNS s = false -> wf s = true.
+Proof. exact accepted_wf_nodoctype. Qed.
+
+(** the hypothesis "no DOCTYPE" on the text, and on the infoset *)
+Theorem accepted_is_wellformed_nodoctype_text_partial : forall (s : str) (d : document),
+  from_raw s = OOk ([], d) -> find_sub s_doctype s = None -> KnownD04_nodoctype s = false -> KnownNS s = false -> wf s = true.
+Proof. intros s d H Hf. apply (accepted_wf_nodoctype s d H). exact (nodoctype_of_text s d Hf H). Qed.
+
+Theorem accepted_is_wellformed_nodoctype_infoset_partial : forall (s : str) (d : document),
+  from_raw s = OOk ([], d) -> doc_doctype d = None -> KnownD04_nodoctype s = false -> KnownNS s = false -> wf s = true.
+Proof. intros s d H Hd. apply (accepted_wf_nodoctype s d H). exact (doc_doctype_none s d H Hd). Qed.
+
+(** non-vacuous: an XML declaration, a comment, attributes with references and a namespace declaration, a
+    prefixed child, text, a predefined entity, a CDATA section and a PI *)
+Example nodoctype_hypotheses_satisfiable :
+  (exists d, from_raw ex_nodoctype = OOk ([], d)) /\ nodoctype ex_nodoctype = true /\ KnownD04_nodoctype ex_nodoctype = false
+  /\ KnownNS ex_nodoctype = false /\ find_sub s_doctype ex_nodoctype = None.
+Proof. exact nodoctype_nonvacuous. Qed.
+
 Print Assumptions wf_is_wf_xml10.
+Print Assumptions syntax_nodoctype_partial.
+Print Assumptions constraints_nodoctype_partial.
+Print Assumptions accepted_is_wf_xml10_nodoctype_partial.
+Print Assumptions accepted_is_wellformed_nodoctype_partial.
+Print Assumptions accepted_is_wellformed_nodoctype_text_partial.
+Print Assumptions accepted_is_wellformed_nodoctype_infoset_partial.
 Print Assumptions lex_Comment.
 Print Assumptions lex_CharData.
 Print Assumptions lex_CDSect.
